@@ -214,9 +214,99 @@ def check_atom(case):
     return res
 
 
+# ------------------------------------------------------------------ run level: file vs returned model
+@st.composite
+def run_case(draw):
+    from .. import e2e
+
+    mode = draw(st.sampled_from([["--clean"], [], [], ["--noopt"], ["--nodebump", "--noopt"], ["--assign-only"]]))
+    hyd = "all" if mode == ["--assign-only"] else None
+    desc = draw(e2e.structure(max_chains=3, nmax=4, contact=False, hyd=hyd, variants=0.15))
+    # insertion codes / numbering at the column boundaries
+    for ch in desc["chains"]:
+        n = len(ch["seq"])
+        if draw(st.integers(0, 2)) == 0:
+            strat.add_insertion_codes(draw, ch)
+    opts = list(mode)
+    for o in ("--whitespace", "--keep-chain"):
+        if draw(st.booleans()):
+            opts.append(o)
+    return dict(part="run", desc=desc, ff=draw(st.sampled_from(strat.FFS)), opts=opts,
+                big=draw(st.sampled_from([None, None, [-150.0, 1200.0, -250.0]])))  # fmt: skip
+
+
+def check_run(case):
+    from .. import e2e
+
+    res = Result()
+    desc, ff, opts = case["desc"], case["ff"], case["opts"]
+    if case.get("big"):
+        for ci, ch in enumerate(desc["chains"]):
+            ch.pop("contact", None)
+            ch["shift"] = [case["big"][0] + 40.0 * ci, case["big"][1], case["big"][2]]
+    s, r = e2e.run_case(desc, ff, opts)
+    ws, keep = "--whitespace" in opts, "--keep-chain" in opts
+    res.label("ws" if ws else "fixed", "keep-chain" if keep else "no-chain", "clean" if "--clean" in opts else "ff-run",
+              "big-coords" if case.get("big") else "small-coords")  # fmt: skip
+    if not r.ok:
+        res.label("run-failed", "fail:" + r.exc_text[:40])
+        return res
+    A = e2e.analyse(desc, ff, opts, s, r)
+    for sig, msg in A.problems:
+        if sig.startswith("C08"):
+            res.bad(sig, msg)
+    if A.pairs is None:
+        res.label("unpaired")
+        return res
+    boundary = False
+    for k, (ln, a) in enumerate(A.pairs):
+        tag = ("ws" if ws else "fixed") + ("+chain" if keep else "") + (":clean" if "--clean" in opts else "")
+        exp_chain = (a.chain_id or "") if keep else ""
+        checks = [
+            ("type", ln["rec"], a.type), ("serial", ln["serial"], k + 1), ("name", ln["name"], a.name),
+            ("res_name", ln["resn"], a.res_name), ("chain", ln["chain"], exp_chain), ("res_seq", ln["seq"], a.res_seq),
+            ("ins_code", ln.get("icode", ""), a.ins_code or ""),
+        ]  # fmt: skip
+        for field, got, want in checks:
+            if got != want:
+                res.bad(f"C08:run:{tag}:{field}", f"{field} in the file {got!r}, in the model {want!r} (atom {a.name} of {a.residue})")
+                break
+        for field, got, want, tol in (("x", ln["x"], a.x, 5.1e-4), ("y", ln["y"], a.y, 5.1e-4), ("z", ln["z"], a.z, 5.1e-4),
+                                      ("charge", ln["q"], a.ffcharge or 0.0, 5.1e-5), ("radius", ln["r"], a.radius or 0.0, 5.1e-5)):  # fmt: skip
+            if abs(got - want) > tol:
+                res.bad(f"C08:run:{tag}:{field}", f"{field} in the file {got}, in the model {want} (atom {a.name} of {a.residue})")
+                break
+        if len(a.name) == 4 or (a.ins_code or "") or len(f"{a.x:.3f}") >= 8 or len(str(a.res_seq)) >= 4:
+            boundary = True
+    digit_chain = keep and any((a.chain_id or "").isdigit() for _ln, a in A.pairs)
+    if ws and digit_chain:
+        res.label("excluded-digit-chain-id")  # ambiguous in the whitespace PQR grammar itself
+    if ws and not digit_chain:
+        import io as _io
+
+        from pdb2pqr import io as pio
+
+        try:
+            own = pio.read_pqr(_io.StringIO(r.pqr_text))
+            if len(own) != len(A.pairs):
+                res.bad("C08:run:own-reader:count", f"io.read_pqr returns {len(own)} atoms for {len(A.pairs)} written")
+            else:
+                for o, (ln, a) in zip(own, A.pairs):
+                    if (o.name, o.res_name, o.res_seq, o.ins_code or "") != (a.name, a.res_name, a.res_seq, a.ins_code or "") or \
+                            abs(o.x - a.x) > 5.1e-4 or abs(o.charge - (a.ffcharge or 0.0)) > 5.1e-5 or (keep and (o.chain_id or "") != (a.chain_id or "")):
+                        res.bad("C08:run:own-reader:fields", f"io.read_pqr gives {(o.name, o.res_name, o.chain_id, o.res_seq, o.ins_code)} for "
+                                f"{(a.name, a.res_name, a.chain_id, a.res_seq, a.ins_code)}")  # fmt: skip
+                        break
+        except Exception as e:  # noqa: BLE001
+            res.bad("C08:run:own-reader:fails", f"io.read_pqr cannot read the file pdb2pqr just wrote: {e!r}")
+    res.nontrivial = boundary
+    return res
+
+
 def parts(tier):
     return [
         Part("atom", check_atom, strategy=atom_case(), budget=dict(quick=6000, thorough=80000)),
+        Part("run", check_run, strategy=run_case(), budget=dict(quick=400, thorough=8000)),
     ]
 
 
